@@ -7,7 +7,7 @@ ELEMS_11_ONLY = ['Pronunciation', 'Requires', 'ExternalSynset']
 def mutate(rng, text):
     """returns (description, mutated text)"""
     kinds = ['drop_attr', 'rename_elem', 'dup_single', 'unbalance', 'header_decl', 'header_doctype',
-             'swap_quotes', 'unknown_elem', 'version_elem', 'drop_required_id', 'truncate', 'truncate', 'none']
+             'swap_quotes', 'unknown_elem', 'version_elem', 'drop_required_id', 'drop_required_id', 'truncate', 'truncate', 'none']
     for _ in range(20):
         k = rng.choice(kinds)
         if k == 'none':
@@ -67,7 +67,28 @@ def mutate(rng, text):
             if 0 < cut < len(text):
                 return 'truncate', text[:cut]
         elif k == 'drop_required_id':
-            m = re.search(r'<(Lexicon|LexicalEntry|Sense|Synset) [^>]*?( id=("[^"]*"|\'[^\']*\'))', text)
-            if m:
-                return 'drop_required_id', text[:m.start(2)] + text[m.end(2):]
+            ms = list(re.finditer(r'<(Lexicon|LexiconExtension|LexicalEntry|Sense|Synset|ExternalLexicalEntry|ExternalSense|'
+                                  r'ExternalSynset)\b[^>]*?( id\s*=\s*("[^"]*"|\'[^\']*\'))', text))
+            if ms:
+                # every kind of element that needs an id gets its turn (not only the first match in the file)
+                by_kind = {}
+                for m in ms:
+                    by_kind.setdefault(m.group(1), []).append(m)
+                m = rng.choice(by_kind[rng.choice(sorted(by_kind))])
+                return 'drop_required_id ' + m.group(1), text[:m.start(2)] + text[m.end(2):]
     return 'none', text
+
+
+ID_KINDS = ('Lexicon', 'LexiconExtension', 'LexicalEntry', 'Sense', 'Synset', 'ExternalLexicalEntry', 'ExternalSense',
+            'ExternalSynset')
+
+
+def drop_id_each_kind(rng, text):
+    """one mutant per kind of element that needs an id and occurs in the document: the id of one such element removed"""
+    out = []
+    for kind in ID_KINDS:
+        ms = list(re.finditer(r'<%s\b[^>]*?( id\s*=\s*("[^"]*"|\'[^\']*\'))' % kind, text))
+        if ms:
+            m = rng.choice(ms)
+            out.append(('drop_required_id ' + kind, text[:m.start(1)] + text[m.end(1):]))
+    return out
